@@ -144,8 +144,13 @@ def run_case(case):
             tl.append([dt, ["rst"]])
         elif k == "ping-timeout":
             spec["default_pong"] = None
+            if a.get("chatty"):
+                # the peer stops answering pings but goes on sending data (more often than one ping timeout)
+                spec["chatty"] = [a["chatty"], 2000, rm.encode_frame(1, rm.TEXT, b"tick")]
         elif k == "server-close":
-            tl.append([dt, ["data", rm.encode_frame(1, rm.CLOSE, struct.pack(">H", a.get("code", 1000)) + b"done")]])
+            # (a close frame may come without a body, or with a status only)
+            body = {"empty": b"", "code-only": struct.pack(">H", a.get("code", 1000))}.get(a.get("close_body"), struct.pack(">H", a.get("code", 1000)) + b"done")
+            tl.append([dt, ["data", rm.encode_frame(1, rm.CLOSE, body)]])
         elif k == "stay":
             pass
         specs.append(spec)
@@ -350,7 +355,7 @@ def seq_cases():
                     iv = (0.5, 1, 2.5, 5)[(n + len(seq[0])) % 4]
                     c = {"attempts": att, "interval": iv, "external": ext, "on_reconnect": (n + len(stop)) % 2 == 0, "via_global": (len(seq[0]) + len(seq[-1]) + len(stop)) % 3 == 0}
                     if stop == "server-close":
-                        att.append({"kind": "server-close", "after": 2.0})
+                        att.append({"kind": "server-close", "after": 2.0, "close_body": (None, "empty", "code-only")[(n + len(seq[0])) % 3]})
                     else:
                         att.append({"kind": "stay"})
                         # close 1.3 s after the last connection is up (computed from the model below)
@@ -386,12 +391,15 @@ def cases(draw):
             a["hs_delay"] = draw(st.sampled_from([0.0, 0.0, 0.3]))
         if k == "reject":
             a["status"] = draw(st.sampled_from([400, 404, 500, 503]))
+        if k == "ping-timeout" and draw(st.booleans()):
+            a["chatty"] = round(ping[1] * draw(st.sampled_from([0.3, 0.7])), 3)
         att.append(a)
     c = {"attempts": att, "interval": interval, "external": ext, "on_reconnect": draw(st.booleans()), "ping": ping, "run_for": 200.0, "via_global": draw(st.integers(0, 3)) == 0,
          "secure": draw(st.integers(0, 3)) == 0}
     stop = draw(st.sampled_from(["server-close", "app-close", "app-close-any"]))
     if stop == "server-close":
-        att.append({"kind": "server-close", "after": draw(st.sampled_from([0.0, 0.5, 3.0])), "code": draw(st.sampled_from([1000, 1001, 4000])), "hs_delay": 0.0})
+        att.append({"kind": "server-close", "after": draw(st.sampled_from([0.0, 0.5, 3.0])), "code": draw(st.sampled_from([1000, 1001, 4000])), "hs_delay": 0.0,
+                    "close_body": draw(st.sampled_from([None, None, "empty", "code-only"]))})
     else:
         att.append({"kind": "stay", "hs_delay": 0.0})
         c["close_at"] = draw(st.sampled_from([0.05, 0.75, 1.0, 3.3, 10.2, 31.0, 77.7]))
